@@ -1,7 +1,7 @@
 """dlref: naive (not semi-naive) stratified bottom-up evaluation of a dlgen AST. Written for obviousness.
 Raises OutOfDomain where the property texts leave behaviour undefined (overflow, /0, budgets...)."""
 from fractions import Fraction
-from .dlgen import Var, Const, Wild, Fn, RecInit, Agg, Atom, Neg, Cmp, RecT, NUMBER, UNSIGNED, FLOAT, SYMBOL, tname
+from .dlgen import Var, Const, Wild, Fn, RecInit, AdtInit, AdtT, Or, Agg, Atom, Neg, Cmp, RecT, NUMBER, UNSIGNED, FLOAT, SYMBOL, tname
 from .refops import OutOfDomain, arith, compare, strlen, substr, chk_i, chk_f, f32, U32_MAX
 
 
@@ -20,6 +20,8 @@ def eval_term(t, env):
         return env[t.name]
     if isinstance(t, Const):
         return t.val
+    if isinstance(t, AdtInit):
+        return ("$" + t.branch,) + tuple(eval_term(a, env) for a in t.args)
     if isinstance(t, RecInit):
         return tuple(eval_term(a, env) for a in t.args)
     if isinstance(t, Fn):
@@ -71,6 +73,14 @@ def match(t, val, env):
         return e
     if isinstance(t, Const):
         return env if t.val == val else None
+    if isinstance(t, AdtInit):
+        if val is None or val[0] != "$" + t.branch:
+            return None
+        for a, v in zip(t.args, val[1:]):
+            env = match(a, v, env)
+            if env is None:
+                return None
+        return env
     if isinstance(t, RecInit):
         if is_ground(t, env):
             return env if eval_term(t, env) == val else None
@@ -136,6 +146,32 @@ class Evaluator:
                 self.stats["neg_filtered"] += 1
             else:
                 yield from self.solve(body, i + 1, env)
+        elif isinstance(l, Or):
+            for alt in l.alts:
+                ok = False
+                for _e in self.solve(alt, 0, env):
+                    ok = True
+                    break
+                if ok:
+                    yield from self.solve(body, i + 1, env)
+                    break
+        elif isinstance(l, Cmp) and l.op == "=" and isinstance(l.rhs, Fn) and l.rhs.op == "range":
+            a = [eval_term(x, env) for x in l.rhs.args]
+            lo, hi = a[0], a[1]
+            step = a[2] if len(a) > 2 else (1 if lo <= hi else -1)
+            if step == 0:
+                raise OutOfDomain("range step 0")
+            vals = []
+            x = lo
+            while (step > 0 and x < hi) or (step < 0 and x > hi):
+                vals.append(x)
+                x += step
+                if len(vals) > 1000:
+                    raise OutOfDomain("range too long")
+            for v in vals:
+                e = match(l.lhs, v, env)
+                if e is not None:
+                    yield from self.solve(body, i + 1, e)
         elif isinstance(l, Cmp):
             lhs, rhs = l.lhs, l.rhs
             if l.op == "=" and (isinstance(rhs, Agg) or isinstance(lhs, Agg)):
@@ -216,8 +252,10 @@ class Evaluator:
     # ---- rules / strata
     def fire(self, rule):
         out = set()
+        heads = [rule.head] + [h for h in getattr(rule, "extra_heads", ()) if h.rel == rule.head.rel]
         for e in self.solve(rule.body, 0, {}):
-            out.add(tuple(eval_term(a, e) for a in rule.head.args))
+            for h in heads:
+                out.add(tuple(eval_term(a, e) for a in h.args))
         return out
 
     def run(self):
@@ -291,9 +329,9 @@ def evaluate(P, budget=None):
 def _split_top(s):
     parts, depth, cur = [], 0, []
     for c in s:
-        if c == "[":
+        if c in "[(":
             depth += 1
-        elif c == "]":
+        elif c in "])":
             depth -= 1
         if c == "," and depth == 0:
             parts.append("".join(cur))
@@ -305,6 +343,20 @@ def _split_top(s):
 
 
 def parse_value(text, ty):
+    if isinstance(ty, AdtT):
+        text = text.strip()
+        for bname, ftys in ty.branches:
+            tag = "$" + bname
+            if text == tag or text == tag + "()":
+                if ftys:
+                    continue
+                return (tag,)
+            if text.startswith(tag + "(") and text.endswith(")"):
+                parts = _split_top(text[len(tag) + 1:-1])
+                if len(parts) != len(ftys):
+                    continue
+                return (tag,) + tuple(parse_value(p.strip(" ") if ft != SYMBOL else (p[1:] if p.startswith(" ") else p), ft) for p, ft in zip(parts, ftys))
+        raise ValueError("bad ADT text %r" % text)
     if isinstance(ty, RecT):
         if text == "nil":
             return None
